@@ -43,6 +43,11 @@
        thresh with a satisfied child that contributes 0, ...) are not table entries and are
        therefore outside U1 — they belong to the gap below.
        No typing rule of the malleability system is refuted at table level.
+       Static reading of the flags, about the TABLE ALONE (no satisfier in the statement), for a fragment
+       typed `m` without repeated keys and ANY asset set B (every preimage, any met locks) that holds no
+       signature of the fragment's keys: typed `s` => B has no satisfaction [C03_static_signed_table];
+       typed `f` => B has no dissatisfaction [C03_static_forced_table]; typed `e` => B has exactly one
+       dissatisfaction and it contains no signature [C03_static_unique_dissat_table].
 
    (U2) SCRIPT LEVEL, as far as Theorem A and the all-stacks theorems reach:
          - [C03_unique_script_partial]: for a sane script (typed B, m, s, wf, no repeated keys) the
@@ -59,7 +64,7 @@
        adversary's alphabet are executed on the extracted Script semantics. *)
 From Verif Require Import Exec Ser Ast Types TypeCheck SatSpec Sat ExecLemmas TheoremA SatProofs HasSigProofs.
 From Verif Require Import CompleteProofs CompleteNonMall SignedLemmas SignedSound
-  NonMallUnique NonMallUniqueThresh NonMallUniqueMulti NonMallUniqueMain NonMallUniqueExamples.
+  NonMallUnique NonMallUniqueThresh NonMallUniqueMulti NonMallUniqueMain NonMallUniqueExamples NonMallUniqueStatic.
 From Coq Require Import Permutation.
 
 Theorem C03_hassig_bookkeeping_partial : forall (ke : keyenv) (se : senv) (rhs : bool) (m : ms),
@@ -161,6 +166,34 @@ Theorem C03_adversary_sees_only_published_signatures :
 Proof. exact adv_vis. Qed.
 Print Assumptions C03_adversary_sees_only_published_signatures.
 
+(* ---------------- the flags s / f / e as statements about the table alone ---------------- *)
+Theorem C03_static_signed_table :
+  forall (ke : keyenv), (forall ks, Permutation (ksort ke ks) ks) ->
+  forall (B : assets), locks_ok B ->
+  forall (m : ms) (t : ty), uwf m -> NoDup (ukeys m) -> type_of m = ROk t -> m_nm (t_mall t) = true ->
+  nosigs B (ukeys m) -> m_signed (t_mall t) = true -> all_sat ke B m = [].
+Proof. exact static_signed_table. Qed.
+Print Assumptions C03_static_signed_table.
+
+Theorem C03_static_forced_table :
+  forall (ke : keyenv), (forall ks, Permutation (ksort ke ks) ks) ->
+  forall (B : assets), locks_ok B ->
+  forall (m : ms) (t : ty), uwf m -> NoDup (ukeys m) -> type_of m = ROk t -> m_nm (t_mall t) = true ->
+  nosigs B (ukeys m) -> m_dissat (t_mall t) = DNone -> all_dsat ke B m = [].
+Proof. exact static_forced_table. Qed.
+Print Assumptions C03_static_forced_table.
+
+Theorem C03_static_unique_dissat_table :
+  forall (ke : keyenv), (forall ks, Permutation (ksort ke ks) ks) ->
+  forall (B : assets), locks_ok B ->
+  forall (m : ms) (t : ty), uwf m -> NoDup (ukeys m) -> type_of m = ROk t -> m_nm (t_mall t) = true ->
+  nosigs B (ukeys m) -> m_dissat (t_mall t) = DUnique ->
+  exists (l : list ph) (d : wit),
+    Forall nosig l /\ fill_all (f_of ke B) l = Some (rev d) /\
+    In d (all_dsat ke B m) /\ forall w', In w' (all_dsat ke B m) -> w' = d.
+Proof. exact static_unique_dissat_table. Qed.
+Print Assumptions C03_static_unique_dissat_table.
+
 (* ---------------- (U2) script level ---------------- *)
 Theorem C03_unique_script_partial :
   forall (e : env) (ke : keyenv) (A : assets) (se : senv) (f : fill) (Pre : hkind -> bytes -> option bytes),
@@ -239,3 +272,12 @@ Example C03_unique_nonvacuous_choice :
   satisfy ux_ke ux_se ux_f false true ux_choice = Some ux_choice_w /\
   all_sat ux_ke (adv_assets ux_A ux_Pre (rev ux_choice_w)) ux_choice = [rev ux_choice_w].
 Proof. exact ux_choice_nonvacuous. Qed.
+
+(* the static statements: thresh(2, pk(0), s:pk(1), s:pk(2)) is typed m, s, e; a signature-less asset set that opens
+   every hash has no table satisfaction and exactly one table dissatisfaction *)
+Example C03_static_nonvacuous :
+  (forall ks, Permutation (ksort c02x_ke ks) ks) /\ locks_ok ux_B0 /\ uwf c02x_thresh /\ NoDup (ukeys c02x_thresh) /\
+  nosigs ux_B0 (ukeys c02x_thresh) /\
+  (exists t, type_of c02x_thresh = ROk t /\ m_nm (t_mall t) = true /\ m_signed (t_mall t) = true /\ m_dissat (t_mall t) = DUnique) /\
+  all_sat c02x_ke ux_B0 c02x_thresh = [] /\ all_dsat c02x_ke ux_B0 c02x_thresh = [[[]; []; []]].
+Proof. exact static_nonvacuous. Qed.
